@@ -79,9 +79,9 @@ Verdict(c) ==
      ELSE IF c.dual = 1 /\ ~DualOK(c, m, n) THEN <<"machinery", "bad-dual-certificate">>
      ELSE IF c.dual = 1 /\ c.brute = 1 /\ ~FCloseRel(DualValue(c, m, n), WassersteinDef(c, m, n), E9, E9) THEN <<"machinery", "dual-vs-definition">>
      ELSE IF c.finite = 0 THEN <<"fail", "C02-value-not-finite">>
-     ELSE IF c.brute = 1 /\ ~Close(c, c.dist, WassersteinDef(c, m, n)) THEN <<"fail", "C02-not-optimal">>
-     ELSE IF c.dual = 1 /\ ~FCloseRel(c.dist, DualValue(c, m, n), E9, E9) THEN <<"fail", "C02-not-optimal-dual">>
-     ELSE IF (c.warn[1] = 1) # dropped1 \/ (c.warn[2] = 1) # dropped2 THEN <<"fail", "C02-warning-iff-dropped">>
+     ELSE IF c.mine # "C06" /\ c.brute = 1 /\ ~Close(c, c.dist, WassersteinDef(c, m, n)) THEN <<"fail", "C02-not-optimal">>
+     ELSE IF c.mine # "C06" /\ c.dual = 1 /\ ~FCloseRel(c.dist, DualValue(c, m, n), E9, E9) THEN <<"fail", "C02-not-optimal-dual">>
+     ELSE IF c.mine # "C06" /\ ((c.warn[1] = 1) # dropped1 \/ (c.warn[2] = 1) # dropped2) THEN <<"fail", "C02-warning-iff-dropped">>
      ELSE IF c.hasrows = 1 /\ ~Close(c, c.distm, c.dist) THEN <<"fail", "C06-distance-differs-with-matching">>
      ELSE IF c.hasrows = 1 /\ ~Certifies(c, PX, PY) THEN <<"fail", "C06-not-a-certificate">>
      ELSE <<"ok", "">>
